@@ -47,19 +47,58 @@ theorem servo_clamped (s : FServo K) (op : FServoOp K) (ha : s.minA < s.maxA) (h
   | write a =>
     simp only [FServo.step]
     obtain ⟨q1, q2⟩ := clampTo_bounds ha.le a.toF
-    exact ⟨q1, q2, (clampTo_bounds hp.le _).1, (clampTo_bounds hp.le _).2, rfl, rfl, rfl, rfl⟩
+    refine ⟨q1, q2, (clampTo_bounds hp.le _).1, (clampTo_bounds hp.le _).2, ?_, ?_, ?_, ?_⟩ <;> trivial
   | writeUs p =>
     have hz : FServo.isZ (s.maxP - s.minP) = false := isZ_false (sub_pos.mpr hp).ne'
     simp only [FServo.step, hz, Bool.false_eq_true, if_false]
     obtain ⟨q1, q2⟩ := clampTo_bounds hp.le p.toF
     obtain ⟨q3, q4, _⟩ := affine_map hp ha q1 q2
-    exact ⟨q3, q4, q1, q2, rfl, rfl, rfl, rfl⟩
+    refine ⟨q3, q4, q1, q2, ?_, ?_, ?_, ?_⟩ <;> trivial
 
 def FMotorInv (m : FMotor K) : Prop := (-1 : K) ≤ m.speed ∧ m.speed ≤ 1
 
 theorem motor_clamped (m : FMotor K) (op : FMotorOp K) (h : FMotorInv m) :
     (∀ d ∈ dutiesOf (FMotor.step m op).evs, 0 ≤ d ∧ d ≤ 255) ∧ FMotorInv (FMotor.step m op).st := by
-  sorry
+  open Lemmas.C04 Lemmas.C19 in
+  obtain ⟨h0, h1⟩ := h
+  cases op with
+  | setSpeed v =>
+    simp only [FMotor.step, drive_eq]
+    exact ⟨duties_driveEvs_bounds _ _, clampSpeed_bounds _⟩
+  | backward v =>
+    simp only [FMotor.step, drive_eq]
+    exact ⟨duties_driveEvs_bounds _ _, clampSpeed_bounds _⟩
+  | stop =>
+    simp only [FMotor.step, FMotor.brakeEvs]
+    refine ⟨?_, ?_⟩
+    · show ∀ d ∈ dutiesL _, _
+      simp
+    · simp [FMotorInv]
+  | coast =>
+    simp only [FMotor.step]
+    refine ⟨?_, ?_⟩
+    · show ∀ d ∈ dutiesL _, _
+      simp
+    · simp [FMotorInv]
+  | invert =>
+    simp only [FMotor.step, drive_eq]
+    exact ⟨duties_driveEvs_bounds _ _, h0, h1⟩
+  | ramp t d =>
+    simp only [FMotor.step, rampLoop_eq, List.nil_append]
+    refine ⟨dutiesL_rampEvs _ _ _ _ _ _ _, ?_⟩
+    rw [rampSt_eq, if_neg (by norm_num)]
+    exact clampSpeed_bounds _
+  | runFor d v =>
+    simp only [FMotor.step, drive_eq, FMotor.brakeEvs]
+    refine ⟨?_, ?_⟩
+    · show ∀ d ∈ dutiesL _, _
+      intro d hd
+      simp only [dutiesL_append, dutiesL_driveEvs, List.mem_append, List.mem_singleton] at hd
+      rcases hd with (hd | hd) | hd
+      · subst hd; exact dutyL_bounds _
+      · simp at hd
+      · simp at hd; omega
+    · simp [FMotorInv]
 
 /-! ## Part B — agreement with the host on every accepted call -/
 
@@ -176,7 +215,7 @@ theorem servo_agrees (f : FServo K) (h : Host.Servo K) (op : Host.ServoOp K) (hr
     simp only [servoOp, FServo.step, hz, clampTo_id hb.1 hb.2, Host.Servo.angleToPulse, lit_half,
       Bool.false_eq_true, if_false]
     rw [clampTo_id q1 q2]
-    exact ⟨⟨rfl, rfl, rfl, rfl, rfl, rfl⟩, rfl⟩
+    refine ⟨⟨?_, ?_, ?_, ?_, ?_, ?_⟩, ?_⟩ <;> trivial
   | writeUs p =>
     simp only [Host.Servo.step] at hok ⊢
     split_ifs at hok ⊢ with hb
@@ -184,7 +223,7 @@ theorem servo_agrees (f : FServo K) (h : Host.Servo K) (op : Host.ServoOp K) (hr
     have hz : FServo.isZ (fp1 - fp0) = false := isZ_false (sub_pos.mpr hp).ne'
     simp only [servoOp, FServo.step, hz, clampTo_id hb.1 hb.2, Host.Servo.pulseToAngle, lit_half,
       Bool.false_eq_true, if_false]
-    exact ⟨⟨rfl, rfl, rfl, rfl, rfl, rfl⟩, rfl⟩
+    refine ⟨⟨?_, ?_, ?_, ?_, ?_, ?_⟩, ?_⟩ <;> trivial
 
 /-! ### DCMotor -/
 def motorOp : Host.MotorOp K → FMotorOp K
@@ -212,7 +251,60 @@ theorem motor_agrees (f : FMotor K) (h : Host.Motor K) (op : Host.MotorOp K) (hr
     (hok : (Host.Motor.step h op).res = .ok)
     (hnt : ∀ x ∈ (Host.Motor.step h op).trace, NotTiny x) (hnt0 : NotTiny h.speed) :
     RelMotor (FMotor.step f (motorOp op)).st (Host.Motor.step h op).st := by
-  sorry
+  open Lemmas.C04 Lemmas.C19 in
+  obtain ⟨hs, hi, hm⟩ := hrel
+  obtain ⟨hb0, hb1, hap⟩ := hinv
+  have hmode : ∀ x : K, NotTinyL x →
+      (if dutyL (effOf h.inverted x) = 0 then FMode.coast else FMode.drive) =
+        modeImage (if effOf h.inverted x = 0 then Host.Mode.coast else Host.Mode.drive) := by
+    intro x hx
+    rw [ite_duty (notTiny_effOf hx)]
+    split <;> rfl
+  cases op with
+  | setSpeed v =>
+    have hn : NotTinyL (Host.Motor.clamp v) := hnt _ (by simp [Host.Motor.step, host_setSpeed_eq])
+    simp only [motorOp, FMotor.step, drive_eq, Host.Motor.step, host_setSpeed_eq, RelMotor, driveSt,
+      clampSpeed_toF, hi, if_true]
+    exact ⟨trivial, trivial, hmode _ hn⟩
+  | backward v =>
+    have hn : NotTinyL (Host.Motor.clamp (.flt (-(Host.Motor.fabs (Host.Motor.clamp v))))) :=
+      hnt _ (by simp [Host.Motor.step, host_setSpeed_eq])
+    simp only [motorOp, FMotor.step, drive_eq, Host.Motor.step, host_setSpeed_eq, RelMotor, driveSt,
+      backward_eq, hi, if_true]
+    exact ⟨trivial, trivial, hmode _ hn⟩
+  | stop =>
+    simp only [motorOp, FMotor.step, Host.Motor.step, RelMotor, fzero_eq, zero_eq, hi, modeImage]
+    exact ⟨trivial, trivial, trivial⟩
+  | coast =>
+    simp only [motorOp, FMotor.step, Host.Motor.step, RelMotor, fzero_eq, zero_eq, hi, modeImage]
+    exact ⟨trivial, trivial, trivial⟩
+  | invert =>
+    have hc : FMotor.clampSpeed f.speed = h.speed := by rw [hs]; exact clampSpeed_id hb0 hb1
+    simp only [motorOp, FMotor.step, drive_eq, Host.Motor.step, host_apply_eq, RelMotor, driveSt, hc, hi,
+      Bool.false_eq_true, if_false]
+    exact ⟨hs, trivial, hmode _ hnt0⟩
+  | ramp t d =>
+    by_cases hd : Val.lt d (.int 0) = true
+    · simp only [Host.Motor.step, if_pos hd] at hok; cases hok
+    · rw [ramp_st h t d hd] at hnt ⊢
+      simp only at hnt
+      have hv : h.speed + (Host.Motor.clamp t - h.speed) / 20 * 20 = Host.Motor.clamp t := by
+        field_simp; ring
+      have hn : NotTinyL (Host.Motor.clamp t) := by
+        have := hnt _ (rampGo_trace_last _ _ _ _)
+        rwa [hv, host_clamp_clamp] at this
+      have hi20 : (1 : Int) + ((20 : Nat) : Int) - 1 = 20 := by norm_num
+      simp only [motorOp, FMotor.step, rampLoop_eq, rampSt_eq, rampGo_st, hi20, rampVal_end, RelMotor, driveSt,
+        host_setSpeed_eq, hv, host_clamp_clamp, clampSpeed_toF, hi, if_true]
+      rw [if_neg (by norm_num), if_neg (by norm_num)]
+      simp only [clampSpeed_host, host_clamp_clamp]
+      exact ⟨trivial, trivial, hmode _ hn⟩
+  | runFor d v =>
+    by_cases hd : Val.lt d (.int 0) = true
+    · simp only [Host.Motor.step, if_pos hd] at hok; cases hok
+    · simp only [motorOp, FMotor.step, drive_eq, Host.Motor.step, if_neg hd, RelMotor, driveSt, fzero_eq, zero_eq,
+        hi, modeImage]
+      exact ⟨trivial, trivial, trivial⟩
 
 /-- applied speed query: `(inverted ? -speed : speed)` is the host's applied speed -/
 theorem motor_applied_getter (f : FMotor K) (h : Host.Motor K) (hrel : RelMotor f h)
@@ -229,7 +321,14 @@ theorem motor_set_speed_pins (f : FMotor K) (h : Host.Motor K) (v : Val K) (hrel
       (if a = 0 then [.dWrite f.pins.1 0, .dWrite f.pins.2.1 0]
        else if 0 < a then [.dWrite f.pins.1 1, .dWrite f.pins.2.1 0]
        else [.dWrite f.pins.1 0, .dWrite f.pins.2.1 1]) ++ [.aWrite f.pins.2.2 (dutyOf a)] := by
-  sorry
+  open Lemmas.C04 Lemmas.C19 in
+  obtain ⟨_, hi, _⟩ := hrel
+  intro a
+  have ha : a = effOf f.inverted (FMotor.clampSpeed v.toF) := by
+    simp only [a, Host.Motor.step, host_setSpeed_eq, hi, clampSpeed_toF]
+  simp only [FMotor.step, drive_eq, ← ha, driveEvs]
+  rw [ite_duty hnt]
+  rfl
 
 /-- delays: run_for waits ⌊duration⌋ ms, ramp 20 × ⌊duration/20⌋ ms (host: the unrounded values) -/
 theorem motor_delays (f : FMotor K) (d v : Val K) (hd : 0 ≤ d.toF) :
